@@ -1084,6 +1084,32 @@ func GenMany(g G) *Scenario {
 	return sc
 }
 
+// GenLadder: a deep "diamond ladder" of two-input converters over type-only
+// labels: level i has two values A_i and B_i (type-only, told apart by their
+// subtype labels), made by C_i(A_{i-1}, B_{i-1}) -> A_i and D_i(A_{i-1},
+// B_{i-1}) -> B_i; A_0 and B_0 are supplied, the target takes A_n and B_n.
+// Acyclic, every converter satisfiable (premise (b) of C05), 18-26 levels. A
+// resolver that reaches every argument of every converter afresh needs 2^n
+// executions; with any per-call reuse of reached values the cost is
+// polynomial.
+func GenLadder(g G) *Scenario {
+	n := g.Int(18, 26)
+	ta, tb := g.Int(0, 5), g.Int(0, 5)
+	a := func(i int) Label { return Label{Type: ta, Dyn: ta, Sub: fmt.Sprintf("a%d", i)} }
+	b := func(i int) Label { return Label{Type: tb, Dyn: tb, Sub: fmt.Sprintf("b%d", i)} }
+	sf := func() string { return Pick(g, []string{FormStruct, FormPtr}) }
+	sc := &Scenario{Inputs: []Input{{L: a(0), Tok: 1}, {L: b(0), Tok: 2}}}
+	for i := 1; i <= n; i++ {
+		in := []Label{a(i - 1), b(i - 1)}
+		sc.Convs = append(sc.Convs,
+			FuncSpec{ID: 2*i - 1, In: in, InForm: sf(), Out: []Label{a(i)}, OutForm: sf()},
+			FuncSpec{ID: 2 * i, In: []Label{in[1], in[0]}, InForm: sf(), Out: []Label{b(i)}, OutForm: sf()})
+	}
+	sc.Convs = rapid.Permutation(sc.Convs).Draw(g.T, "order")
+	sc.Target = FuncSpec{ID: TargetID, InForm: sf(), In: []Label{a(n), b(n)}, OutForm: FormPos, Out: []Label{{Type: 0, Dyn: 0}}}
+	return sc
+}
+
 // GenLayered: multi-input converter sets that are acyclic BY CONSTRUCTION:
 // the six concrete types are ranked and every converter's inputs have strictly
 // lower rank than its outputs (no interfaces, so type compatibility is type
